@@ -79,6 +79,9 @@ type Spec struct {
 	// Hold: jobs (keys) that begin but do not end before the restart: they are still
 	// running when mrp exits and die with it
 	Hold []string `json:"hold"`
+	// PostTwice: mrp is killed after post-processing has moved the files and before it has
+	// rewritten the outputs record; the restarted mrp post-processes again
+	PostTwice bool `json:"post_twice"`
 	// Files: stage code writes the files its outputs name (plus an unreferenced
 	// file and a temporary file), consumers check their file arguments, and at
 	// completion the final VDR sweep and post-processing run as in mrp.
@@ -1493,6 +1496,24 @@ func (d *Driver) finalSweep(ctx context.Context) {
 		time.Sleep(10 * time.Millisecond)
 	}
 	d.tr.Emit("VdrSweepDone")
+	if d.spec.PostTwice {
+		var recs []string
+		var before [][]byte
+		comps, _ := os.ReadDir(d.psdir)
+		for _, c := range comps {
+			if c.IsDir() && c.Name() != "journal" && c.Name() != "tmp" && c.Name() != "outs" {
+				p := path.Join(d.psdir, c.Name(), "fork0", "_outs")
+				if b, err := os.ReadFile(p); err == nil {
+					recs, before = append(recs, p), append(before, b)
+				}
+			}
+		}
+		d.ps.PostProcess()
+		for i, p := range recs {
+			writeFile(p, before[i])
+		}
+		d.tr.Emit("PostInterrupted")
+	}
 	d.ps.PostProcess()
 	d.checkPost()
 	for name, rel := range d.spec.RelFiles {
